@@ -24,22 +24,24 @@ theorem prepared_equiv (isServer : Bool) (level : Int) (t : Nat) (ht : t = 1 ∨
     Spec.messages (Spec.decodePrefixAux r.2.1.length r.2.1) = [⟨t, false, data⟩] := by
   first | exact PreparedLogic.prepared_equiv_plain .. | (apply PreparedLogic.prepared_equiv_plain <;> assumption)
 
-/-- a cache hit sends the cached image in one transport write under the connection's deadline (so prepared close / ping obey C09 / C10 like direct ones) -/
-theorem cached_image_sent (s : W) (pm : PM) (img : Bytes) (h : pm.lookup (prepKey s pm) = some img) :
-    writePrepared s pm none = ((writePreparedImage s pm.t img).1, (writePreparedImage s pm.t img).2, pm) := by
+/-- a cache hit sends the cached image in one transport write under the connection's deadline (so prepared close / ping obey C09 / C10 like direct ones); for a data message the writer the application left open is closed first, as in NextWriter / WriteMessage (`dnp`, `fullp`: the flate answers for that implicit close) -/
+theorem cached_image_sent (s : W) (pm : PM) (img : Bytes) (dnp : List Bytes) (fullp : Bytes)
+    (h : pm.lookup (prepKey s pm) = some img) :
+    writePrepared s pm none dnp fullp =
+      ((writePreparedImage s pm.t img dnp fullp).1, (writePreparedImage s pm.t img dnp fullp).2, pm) := by
   first | exact PreparedLogic.cached_image_sent .. | (apply PreparedLogic.cached_image_sent <;> assumption)
 
 /-- cache_sound: sending never changes an entry already cached, nor the type or payload fixed at creation (caller_mutation_irrelevant: the model keeps its own copy, as NewPreparedMessage does) -/
-theorem cache_sound (s : W) (pm : PM) (env : Option (Bytes × Bytes)) (k : PKey) (img : Bytes)
-    (h : pm.lookup k = some img) :
-    (writePrepared s pm env).2.2.lookup k = some img ∧ (writePrepared s pm env).2.2.t = pm.t ∧
-    (writePrepared s pm env).2.2.data = pm.data := by
+theorem cache_sound (s : W) (pm : PM) (env : Option (Bytes × Bytes)) (dnp : List Bytes) (fullp : Bytes)
+    (k : PKey) (img : Bytes) (h : pm.lookup k = some img) :
+    (writePrepared s pm env dnp fullp).2.2.lookup k = some img ∧ (writePrepared s pm env dnp fullp).2.2.t = pm.t ∧
+    (writePrepared s pm env dnp fullp).2.2.data = pm.data := by
   first | exact PreparedLogic.cache_monotone .. | (apply PreparedLogic.cache_monotone <;> assumption)
 
 /-- an entry added for a key is the rendering for exactly that key, never another key's image -/
-theorem cache_adds_own_key (s : W) (pm : PM) (env : Option (Bytes × Bytes))
+theorem cache_adds_own_key (s : W) (pm : PM) (env : Option (Bytes × Bytes)) (dnp : List Bytes) (fullp : Bytes)
     (hmiss : pm.lookup (prepKey s pm) = none) (hplain : (prepKey s pm).compress = false) :
-    (writePrepared s pm env).2.2.cache =
+    (writePrepared s pm env dnp fullp).2.2.cache =
       pm.cache ++ [(prepKey s pm, (renderPlain (prepKey s pm) pm.t pm.data s.keys s.keyIdx).2.1)] := by
   first | exact PreparedLogic.cache_adds_own_key .. | (apply PreparedLogic.cache_adds_own_key <;> assumption)
 
@@ -81,7 +83,7 @@ def witPM1_hit : witPM1.lookup (prepKey witC1 witPM1) = some witImgC := by decid
     and the theorem applies to the second send -/
 example : writePrepared witC1 witPM1 none =
     ((writePreparedImage witC1 witPM1.t witImgC).1, (writePreparedImage witC1 witPM1.t witImgC).2, witPM1) :=
-  cached_image_sent witC1 witPM1 witImgC witPM1_hit
+  cached_image_sent witC1 witPM1 witImgC [] [] witPM1_hit
 
 /-- witness for `cache_sound`: the server entry made at creation -/
 def witPM0_srv : witPM0.lookup ⟨true, false, 0⟩ = some [0x81, 0x05, 0x48, 0x65, 0x6c, 0x6c, 0x6f] := by
@@ -91,7 +93,7 @@ def witPM0_srv : witPM0.lookup ⟨true, false, 0⟩ = some [0x81, 0x05, 0x48, 0x
     (which is a miss for the client's key and adds a second entry) -/
 example : (writePrepared witC witPM0 none).2.2.lookup ⟨true, false, 0⟩ = some [0x81, 0x05, 0x48, 0x65, 0x6c, 0x6c, 0x6f] ∧
     (writePrepared witC witPM0 none).2.2.t = witPM0.t ∧ (writePrepared witC witPM0 none).2.2.data = witPM0.data :=
-  cache_sound witC witPM0 none ⟨true, false, 0⟩ _ witPM0_srv
+  cache_sound witC witPM0 none [] [] ⟨true, false, 0⟩ _ witPM0_srv
 
 /-- witnesses for `cache_adds_own_key`: the client's key (client, plain, level 1) is not cached yet and is uncompressed -/
 def witPM0_miss : witPM0.lookup (prepKey witC witPM0) = none := by decide +kernel
@@ -102,7 +104,7 @@ def witPM0_plain : (prepKey witC witPM0).compress = false := by decide +kernel
 example : (writePrepared witC witPM0 none).2.2.cache =
     witPM0.cache ++ [(prepKey witC witPM0,
       (renderPlain (prepKey witC witPM0) witPM0.t witPM0.data witC.keys witC.keyIdx).2.1)] :=
-  cache_adds_own_key witC witPM0 none witPM0_miss witPM0_plain
+  cache_adds_own_key witC witPM0 none [] [] witPM0_miss witPM0_plain
 
 /-- the RFC 7692 §7.2.3.1 deflate stream of "Hello" with its 00 00 ff ff tail -/
 def witFull : Bytes := [0xf2, 0x48, 0xcd, 0xc9, 0xc9, 0x07, 0x00, 0x00, 0x00, 0xff, 0xff]
